@@ -508,6 +508,7 @@ theorem stepStore_docs (U : Doc → Prop) (s : Store) (hs : ∀ d ∈ s.docs, U 
     point. `U` is the universe of policy versions: everything ever written plus the synthetic
     policies; `Versioned U` is the Raft guarantee that (id, ModifyIndex) identifies the content. -/
 theorem sequence_pure (U : Doc → Prop) (hV : Versioned U) (hsvc : ∀ x, U (svcDoc x)) (hnode : ∀ x, U (nodeDoc x))
+    (htp : ∀ x, U (tpDoc x))
     (dc : Bytes) (ops : List Op) (hops : ∀ d, Op.putDoc d ∈ ops → U d)
     (s : Store) (hs : ∀ d ∈ s.docs, U d) (c : Caches) (hc : CacheInv U c) :
     runOps dc s c ops = specOps dc s ops := by
@@ -517,7 +518,7 @@ theorem sequence_pure (U : Doc → Prop) (hV : Versioned U) (hsvc : ∀ x, U (sv
     have hops' : ∀ d, Op.putDoc d ∈ ops → U d := fun d hd => hops d (List.mem_cons_of_mem _ hd)
     cases op with
     | resolve secret =>
-      have hU := policiesFor_sub U hsvc hnode s hs dc
+      have hU := policiesFor_sub U hsvc hnode htp s hs dc
       have ⟨h1, h2⟩ := resolveToken_spec U hV s dc c hc secret hU
       simp only [runOps, specOps]
       rw [h1, ih hops' s hs _ h2]
@@ -537,25 +538,234 @@ theorem sequence_pure (U : Doc → Prop) (hV : Versioned U) (hsvc : ∀ x, U (sv
       simp only [runOps, specOps]
       exact ih hops' _ (stepStore_docs U s hs _ (fun x hx => by cases hx)) c hc
 
+/-- a service identity is rendered through the `builtin/service` template: same synthetic policy -/
+theorem svcDoc_eq_tpDoc (x : SvcId) : svcDoc x = tpDoc ⟨.service, x.name, x.dcs⟩ := rfl
+
+/-- a node identity is rendered through the `builtin/node` template, scoped to its datacenter -/
+theorem nodeDoc_eq_tpDoc (x : NodeId) : nodeDoc x = tpDoc ⟨.node, x.name, [x.dc]⟩ := rfl
+
+/-- the universe "written versions + every synthetic policy" -/
+def HistU (hist : List Doc) (d : Doc) : Prop := d ∈ hist ∨ ∃ x, d = tpDoc x
+
+theorem HistU.svc (hist : List Doc) (x : SvcId) : HistU hist (svcDoc x) := .inr ⟨_, svcDoc_eq_tpDoc x⟩
+theorem HistU.node (hist : List Doc) (x : NodeId) : HistU hist (nodeDoc x) := .inr ⟨_, nodeDoc_eq_tpDoc x⟩
+theorem HistU.tp (hist : List Doc) (x : TpId) : HistU hist (tpDoc x) := .inr ⟨x, rfl⟩
+
 /-- The hypotheses of `sequence_pure` are satisfiable by every real history: if the written versions
     are pairwise consistent (same id and ModifyIndex ⇒ same rules — Raft bumps the index on every
-    write) and real ids do not collide with the hash-derived ids of synthetic policies, the universe
-    "written versions + all synthetic policies" is `Versioned`. -/
+    write) and real ids do not collide with the hash-derived ids of synthetic policies (the six
+    template tags), the universe "written versions + all synthetic policies" is `Versioned`: the id of
+    a synthetic policy determines its rules, whichever identity or templated policy produced it. -/
 theorem versioned_history (hist : List Doc)
     (hcons : ∀ d ∈ hist, ∀ e ∈ hist, d.id = e.id → d.modIdx = e.modIdx → d.rules = e.rules)
-    (hids : ∀ d ∈ hist, ∀ n : Bytes, d.id ≠ 0 :: n ∧ d.id ≠ 1 :: n) :
-    Versioned fun d => d ∈ hist ∨ (∃ x, d = svcDoc x) ∨ (∃ x, d = nodeDoc x) := by
+    (hids : ∀ d ∈ hist, ∀ (k : Nat) (n : Bytes), k < 6 → d.id ≠ k :: n) :
+    Versioned (HistU hist) := by
+  have htag : ∀ t : Tmpl, t.tag < 6 := by intro t; cases t <;> decide
   intro d e hd he hid hmi
-  rcases hd with hd | ⟨x, rfl⟩ | ⟨x, rfl⟩ <;> rcases he with he | ⟨y, rfl⟩ | ⟨y, rfl⟩
+  rcases hd with hd | ⟨x, rfl⟩ <;> rcases he with he | ⟨y, rfl⟩
   · exact hcons d hd e he hid hmi
-  · exact absurd hid (hids d hd y.name).1
-  · exact absurd hid (hids d hd y.name).2
-  · exact absurd hid.symm (hids e he x.name).1
-  · simp only [svcDoc, List.cons.injEq, true_and] at hid ⊢; rw [hid]
-  · simp [svcDoc, nodeDoc] at hid
-  · exact absurd hid.symm (hids e he x.name).2
-  · simp [svcDoc, nodeDoc] at hid
-  · simp only [nodeDoc, List.cons.injEq, true_and] at hid ⊢; rw [hid]
+  · exact absurd hid (hids d hd _ _ (htag y.tmpl))
+  · exact absurd hid.symm (hids e he _ _ (htag x.tmpl))
+  · simp only [tpDoc, List.cons.injEq] at hid ⊢
+    obtain ⟨h1, h2⟩ := hid
+    have ht : x.tmpl = y.tmpl := by
+      revert h1; cases x.tmpl <;> cases y.tmpl <;> simp [Tmpl.tag]
+    rw [ht, h2]
+
+
+/-! ## 5a. templated policies (`ACLTemplatedPolicies.Deduplicate`, `ACLTemplatedPolicy.SyntheticPolicy`)
+
+Tokens and roles may carry templated policies (six builtin templates). `resolvePoliciesForIdentity`
+concatenates the token's own list with those of its roles (in collection order — Go map order for
+roles fetched by RPC), de-duplicates and renders one synthetic policy per surviving entry.
+`sequence_pure`, `resolve_pure`, `own_links_only`, `resolve_rpc_pure` and `rpc_sequence_pure` above
+cover these tokens (hypothesis `htp`, met by `HistU`). This section proves that the grants do not
+depend on the order of the links. (Found in this round and repaired in /repo 13d014a: `Deduplicate`
+used to key on template + variables only and keep the first entry, so the datacenter scope of a
+templated policy depended on link order.) -/
+
+theorem dedupTpsAux_mem (xs : List TpId) (seen : List TpId) :
+    ∀ t ∈ dedupTpsAux seen xs, t ∈ xs ∧ seen.any (fun s => s.dup t) = false := by
+  induction xs generalizing seen with
+  | nil => intro t h; simp [dedupTpsAux] at h
+  | cons x ts ih =>
+    intro t h
+    unfold dedupTpsAux at h
+    by_cases hs : seen.any (fun s => s.dup x) = true
+    · rw [if_pos hs] at h
+      exact ⟨List.mem_cons_of_mem _ (ih seen t h).1, (ih seen t h).2⟩
+    · rw [if_neg hs] at h
+      rcases List.mem_cons.mp h with rfl | h
+      · exact ⟨List.mem_cons_self, by simpa using hs⟩
+      · have := ih (x :: seen) t h
+        refine ⟨List.mem_cons_of_mem _ this.1, ?_⟩
+        have h2 := this.2
+        simp only [List.any_cons, Bool.or_eq_false_iff] at h2
+        exact h2.2
+
+/-- nothing is invented: every surviving templated policy is one of the token's own links -/
+theorem tp_dedup_sub (xs : List TpId) : ∀ t ∈ dedupTps xs, t ∈ xs :=
+  fun t h => (dedupTpsAux_mem xs [] t h).1
+
+theorem sameScope_refl (a : List Bytes) : sameScope a a = true := by
+  simp [sameScope]
+
+theorem TpId.dup_refl (t : TpId) : t.dup t = true := by
+  simp [TpId.dup, sameScope_refl]
+
+theorem dedupTpsAux_complete (xs : List TpId) (seen : List TpId) :
+    ∀ t ∈ xs, seen.any (fun s => s.dup t) = true ∨ ∃ e ∈ dedupTpsAux seen xs, e.dup t = true := by
+  induction xs generalizing seen with
+  | nil => intro t h; cases h
+  | cons x ts ih =>
+    intro t h
+    unfold dedupTpsAux
+    by_cases hs : seen.any (fun s => s.dup x) = true
+    · rw [if_pos hs]
+      rcases List.mem_cons.mp h with rfl | h
+      · exact .inl hs
+      · exact ih seen t h
+    · rw [if_neg hs]
+      rcases List.mem_cons.mp h with rfl | h
+      · exact .inr ⟨t, List.mem_cons_self, t.dup_refl⟩
+      · rcases ih (x :: seen) t h with h1 | ⟨e, he, hd⟩
+        · simp only [List.any_cons, Bool.or_eq_true] at h1
+          rcases h1 with h1 | h1
+          · exact .inr ⟨x, List.mem_cons_self, h1⟩
+          · exact .inl h1
+        · exact .inr ⟨e, List.mem_cons_of_mem _ he, hd⟩
+
+/-- nothing is lost: every link is represented by a surviving entry with the same template, the same
+    variables and the same datacenter scope -/
+theorem tp_dedup_complete (xs : List TpId) (t : TpId) (ht : t ∈ xs) : ∃ e ∈ dedupTps xs, e.dup t = true := by
+  rcases dedupTpsAux_complete xs [] t ht with h | h
+  · simp at h
+  · exact h
+
+theorem dedupTpsAux_pairwise (xs : List TpId) (seen : List TpId) :
+    (dedupTpsAux seen xs).Pairwise (fun a b => a.dup b = false) := by
+  induction xs generalizing seen with
+  | nil => simp [dedupTpsAux]
+  | cons x ts ih =>
+    unfold dedupTpsAux
+    by_cases hs : seen.any (fun s => s.dup x) = true
+    · rw [if_pos hs]; exact ih seen
+    · rw [if_neg hs, List.pairwise_cons]
+      refine ⟨?_, ih _⟩
+      intro b hb
+      have := (dedupTpsAux_mem ts (x :: seen) b hb).2
+      simp only [List.any_cons, Bool.or_eq_false_iff] at this
+      exact this.1
+
+/-- no two surviving entries are duplicates of each other -/
+theorem tp_dedup_no_duplicates (xs : List TpId) : (dedupTps xs).Pairwise (fun a b => a.dup b = false) :=
+  dedupTpsAux_pairwise xs []
+
+/-- the rendered templates always validate: a token that links only identities and templated policies
+    can never fail with "failed to parse" -/
+theorem tp_template_valid (t : Tmpl) (n : Bytes) : (tpTemplate t n).valid = true := by
+  cases t <;> rfl
+
+/-- `filterPoliciesByScope` keeps a policy iff it has no datacenter list or lists the local datacenter -/
+theorem mem_filterByScope_iff (dc : Bytes) (ds : List Doc) (d : Doc) :
+    d ∈ filterByScope dc ds ↔ d ∈ ds ∧ (d.dcs = [] ∨ dc ∈ d.dcs) := by
+  simp only [filterByScope, List.mem_flatMap]
+  constructor
+  · rintro ⟨x, hx, hd⟩
+    by_cases he : x.dcs.isEmpty = true
+    · rw [if_pos he, List.mem_singleton] at hd
+      subst hd
+      exact ⟨hx, .inl (List.isEmpty_iff.mp he)⟩
+    · rw [if_neg he] at hd
+      obtain ⟨y, hy, rfl⟩ := List.mem_map.mp hd
+      have := List.mem_filter.mp hy
+      exact ⟨hx, .inr (by have h2 := this.2; simp at h2; exact h2 ▸ this.1)⟩
+  · rintro ⟨hd, hs⟩
+    refine ⟨d, hd, ?_⟩
+    by_cases he : d.dcs.isEmpty = true
+    · rw [if_pos he]; exact List.mem_singleton.mpr rfl
+    · rw [if_neg he]
+      rcases hs with hs | hs
+      · exact absurd (List.isEmpty_iff.mpr hs) he
+      · exact List.mem_map.mpr ⟨dc, List.mem_filter.mpr ⟨hs, by simp⟩, rfl⟩
+
+/-- duplicates are in scope in the same datacenters -/
+theorem dup_scope {s t : TpId} (h : s.dup t = true) (dc : Bytes) :
+    (s.dcs = [] ∨ dc ∈ s.dcs) ↔ (t.dcs = [] ∨ dc ∈ t.dcs) := by
+  simp only [TpId.dup, sameScope, Bool.and_eq_true, List.all_eq_true, List.contains_iff_mem,
+    decide_eq_true_eq] at h
+  obtain ⟨⟨_, hst, hts⟩, _⟩ := h
+  constructor
+  · rintro (h | h)
+    · left
+      cases htd : t.dcs with
+      | nil => rfl
+      | cons y ys =>
+        have := hts y (by rw [htd]; exact List.mem_cons_self)
+        rw [h] at this; cases this
+    · exact .inr (hst dc h)
+  · rintro (h | h)
+    · left
+      cases hsd : s.dcs with
+      | nil => rfl
+      | cons y ys =>
+        have := hst y (by rw [hsd]; exact List.mem_cons_self)
+        rw [h] at this; cases this
+    · exact .inr (hts dc h)
+
+/-- what a templated policy grants, and where: the rendered rules of every link in scope -/
+theorem tp_granted_iff (xs : List TpId) (dc : Bytes) (p : Policy) :
+    p ∈ (filterByScope dc ((dedupTps xs).map tpDoc)).map (·.rules) ↔
+      ∃ t ∈ xs, (t.dcs = [] ∨ dc ∈ t.dcs) ∧ tpTemplate t.tmpl t.keyName = p := by
+  simp only [List.mem_map, mem_filterByScope_iff]
+  constructor
+  · rintro ⟨d, ⟨⟨t, ht, rfl⟩, hs⟩, rfl⟩
+    exact ⟨t, tp_dedup_sub xs t ht, hs, rfl⟩
+  · rintro ⟨t, ht, hs, rfl⟩
+    obtain ⟨e, he, hd⟩ := tp_dedup_complete xs t ht
+    refine ⟨tpDoc e, ⟨⟨e, he, rfl⟩, (dup_scope hd dc).mpr hs⟩, ?_⟩
+    simp only [TpId.dup, Bool.and_eq_true, decide_eq_true_eq] at hd
+    simp only [tpDoc, hd.1.1, hd.2]
+
+/-- ORDER INDEPENDENCE of templated policies: in every datacenter the set of rule sets granted through
+    templated policies is the same for every order of the links (token list, role links, lists inside
+    the roles: any permutation of the concatenation) — with `merge_perm` (the order and multiplicity
+    of the merged policies is irrelevant) the decision does not depend on link order. -/
+theorem tp_link_order_irrelevant (xs ys : List TpId) (hp : xs.Perm ys) (dc : Bytes) (p : Policy) :
+    p ∈ (filterByScope dc ((dedupTps xs).map tpDoc)).map (·.rules) ↔
+      p ∈ (filterByScope dc ((dedupTps ys).map tpDoc)).map (·.rules) := by
+  rw [tp_granted_iff, tp_granted_iff]
+  constructor
+  · rintro ⟨t, ht, h⟩; exact ⟨t, hp.mem_iff.mp ht, h⟩
+  · rintro ⟨t, ht, h⟩; exact ⟨t, hp.mem_iff.mpr ht, h⟩
+
+/-- regression witness of the repaired defect: roles `R1` = builtin/service{web}@dc1, `R2` =
+    builtin/service{web}@dc2, resolver in dc2. The token linking [R1, R2] and the token linking
+    [R2, R1] are both allowed `service:write web` (the defective code denied the first one). -/
+def dc1 : Bytes := [100, 99, 49]
+def dc2 : Bytes := [100, 99, 50]
+def webB : Bytes := [119, 101, 98]
+def roleR1 : Role := ⟨[1], [], [], [], [⟨.service, webB, [dc1]⟩]⟩
+def roleR2 : Role := ⟨[2], [], [], [], [⟨.service, webB, [dc2]⟩]⟩
+def tok12 : Token := ⟨[97], [], [[1], [2]], [], [], []⟩
+def tok21 : Token := ⟨[98], [], [[2], [1]], [], [], []⟩
+def orderOps : List Op := [.putRole roleR1, .putRole roleR2, .putToken tok12, .putToken tok21, .resolve [97], .resolve [98]]
+
+theorem tp_scope_link_order_witness :
+    (runOps dc2 Store.empty Caches.empty orderOps).map
+      (fun r => match r with
+        | .ok z => some (chain z .denyAll (.serviceWrite webB))
+        | .error _ => none) = [some .allow, some .allow] ∧
+    (runOps dc1 Store.empty Caches.empty orderOps).map
+      (fun r => match r with
+        | .ok z => some (chain z .denyAll (.serviceWrite webB))
+        | .error _ => none) = [some .allow, some .allow] := by
+  decide
+
+/-- scopes that are the same set in a different spelling are duplicates, different sets are not -/
+example : dedupTps [⟨.dns, [], [dc2, dc1, dc1]⟩, ⟨.dns, webB, [dc1, dc2]⟩, ⟨.dns, [], []⟩, ⟨.service, webB, [dc1]⟩,
+    ⟨.service, webB, [dc1]⟩, ⟨.apiGateway, webB, [dc1]⟩] =
+    [⟨.dns, [], [dc2, dc1, dc1]⟩, ⟨.dns, [], []⟩, ⟨.service, webB, [dc1]⟩, ⟨.apiGateway, webB, [dc1]⟩] := by decide
 
 
 /-! ## 5b. RPC mode: the TTL caches for identities, roles and policies
@@ -583,6 +793,7 @@ def Admissible (cfg : RpcCfg) (trace : List Snap) (now : Nat) (secret : Bytes) (
     every role id, every policy id — has the value the servers held at some moment within that object's
     TTL window. The shared compile caches never show (`compile_pure`). -/
 theorem resolve_rpc_pure (U : Doc → Prop) (hV : Versioned U) (hsvc : ∀ x, U (svcDoc x)) (hnode : ∀ x, U (nodeDoc x))
+    (htp : ∀ x, U (tpDoc x))
     (cfg : RpcCfg) (hna : cfg.isAsync = false) (trace : List Snap) (now : Nat) (s : Store) (st : RpcState)
     (inv : RpcInv U trace now st) (hcur : (now, s) ∈ trace) (secret : Bytes) :
     Admissible cfg trace now secret (resolveRpc cfg true s now st secret).2 :=
@@ -591,25 +802,27 @@ theorem resolve_rpc_pure (U : Doc → Prop) (hV : Versioned U) (hsvc : ∀ x, U 
     fun k => viewTok_window trace now cfg.tokenTTL s hcur inv.times st.idents inv.idents k,
     fun k => viewOf_window trace now cfg.roleTTL s hcur inv.times (fun st k => st.role k) st.roles inv.roles k,
     fun k => viewOf_window trace now cfg.policyTTL s hcur inv.times (fun st k => st.doc k) st.pols inv.pols k,
-    (resolveRpc_up_spec U hV hsvc hnode cfg hna trace now s st inv hcur secret).1⟩
+    (resolveRpc_up_spec U hV hsvc hnode htp cfg hna trace now s st inv hcur secret).1⟩
 
 /-- … and leaves caches that satisfy the invariant again. -/
 theorem resolve_rpc_preserves_inv (U : Doc → Prop) (hV : Versioned U) (hsvc : ∀ x, U (svcDoc x)) (hnode : ∀ x, U (nodeDoc x))
+    (htp : ∀ x, U (tpDoc x))
     (cfg : RpcCfg) (hna : cfg.isAsync = false) (trace : List Snap) (now : Nat) (s : Store) (st : RpcState)
     (inv : RpcInv U trace now st) (hcur : (now, s) ∈ trace) (secret : Bytes) :
     RpcInv U trace now (resolveRpc cfg true s now st secret).1 :=
-  (resolveRpc_up_spec U hV hsvc hnode cfg hna trace now s st inv hcur secret).2
+  (resolveRpc_up_spec U hV hsvc hnode htp cfg hna trace now s st inv hcur secret).2
 
 /-- resolve_rpc_zero_ttl: with all three TTLs zero the answer is the cache-free resolution against
     the servers' state at the current clock — the current state `s`, provided no write happened earlier
     within the same clock value (real time always advances between two operations). -/
 theorem resolve_rpc_zero_ttl (U : Doc → Prop) (hV : Versioned U) (hsvc : ∀ x, U (svcDoc x)) (hnode : ∀ x, U (nodeDoc x))
+    (htp : ∀ x, U (tpDoc x))
     (cfg : RpcCfg) (hna : cfg.isAsync = false) (h0 : cfg.tokenTTL = 0 ∧ cfg.roleTTL = 0 ∧ cfg.policyTTL = 0)
     (trace : List Snap) (now : Nat) (s : Store) (st : RpcState)
     (inv : RpcInv U trace now st) (hcur : (now, s) ∈ trace) (hfresh : ∀ p ∈ trace, p.1 = now → p.2 = s)
     (secret : Bytes) :
     (resolveRpc cfg true s now st secret).2 = RpcResult.ofExcept (resolveFresh s cfg.dc secret) := by
-  rw [(resolveRpc_up_spec U hV hsvc hnode cfg hna trace now s st inv hcur secret).1]
+  rw [(resolveRpc_up_spec U hV hsvc hnode htp cfg hna trace now s st inv hcur secret).1]
   have w1 := fun k => viewTok_window trace now cfg.tokenTTL s hcur inv.times st.idents inv.idents k
   have w2 := fun k => viewOf_window trace now cfg.roleTTL s hcur inv.times (fun st k => st.role k) st.roles inv.roles k
   have w3 := fun k => viewOf_window trace now cfg.policyTTL s hcur inv.times (fun st k => st.doc k) st.pols inv.pols k
@@ -663,6 +876,7 @@ def runRpc (cfg : RpcCfg) : Store → Nat → List Snap → RpcState → List RO
     windows — it never depends on which other tokens were resolved before or on anything else the
     caches hold. -/
 theorem rpc_sequence_pure (U : Doc → Prop) (hV : Versioned U) (hsvc : ∀ x, U (svcDoc x)) (hnode : ∀ x, U (nodeDoc x))
+    (htp : ∀ x, U (tpDoc x))
     (cfg : RpcCfg) (hna : cfg.isAsync = false) (ops : List ROp) (hops : ∀ d, ROp.putDoc d ∈ ops → U d)
     (s : Store) (now : Nat) (trace : List Snap) (st : RpcState)
     (inv : RpcInv U trace now st) (hcur : (now, s) ∈ trace) :
@@ -690,8 +904,8 @@ theorem rpc_sequence_pure (U : Doc → Prop) (hV : Versioned U) (hsvc : ∀ x, U
       intro r hr
       simp only [runRpc, List.mem_cons] at hr
       rcases hr with rfl | hr
-      · exact resolve_rpc_pure U hV hsvc hnode cfg hna trace now s st inv hcur secret
-      · exact ih hops' s now trace _ (resolve_rpc_preserves_inv U hV hsvc hnode cfg hna trace now s st inv hcur secret) hcur r hr
+      · exact resolve_rpc_pure U hV hsvc hnode htp cfg hna trace now s st inv hcur secret
+      · exact ih hops' s now trace _ (resolve_rpc_preserves_inv U hV hsvc hnode htp cfg hna trace now s st inv hcur secret) hcur r hr
     | tick n =>
       simp only [runRpc]
       refine ih hops' s (now + n) _ st (inv.mono (fun p hp => List.mem_cons_of_mem _ hp) (Nat.le_add_right _ _) ?_ ?_) List.mem_cons_self
@@ -762,8 +976,8 @@ example : authorize [P1, P2] .allowAll (.intentionWrite web) = some .deny := by 
     caches B is still denied `service:write` after A was resolved (the defective code granted it). -/
 def docA : Doc := ⟨[65], 1, 0, [], P1⟩
 def docB : Doc := ⟨[66], 1, 0, [], P2⟩
-def tokA : Token := ⟨[97], [[65], [66]], [], [], []⟩
-def tokB : Token := ⟨[98], [[65]], [], [], []⟩
+def tokA : Token := ⟨[97], [[65], [66]], [], [], [], []⟩
+def tokB : Token := ⟨[98], [[65]], [], [], [], []⟩
 def aliasOps : List Op := [.putDoc docA, .putDoc docB, .putToken tokA, .putToken tokB, .resolve [97], .resolve [98]]
 
 def writeWeb (r : Except ResolveErr Authz) : Option Dec :=
@@ -776,12 +990,12 @@ example : (runOps [] Store.empty Caches.empty aliasOps).map writeWeb = [some .al
 /-- the hypotheses of `sequence_pure` are met by this history (universe = the two written versions
     plus all synthetic policies) -/
 example : runOps [] Store.empty Caches.empty aliasOps = specOps [] Store.empty aliasOps := by
-  refine sequence_pure (fun d => d ∈ [docA, docB] ∨ (∃ x, d = svcDoc x) ∨ (∃ x, d = nodeDoc x))
-    (versioned_history [docA, docB] (by decide) ?_) (fun x => .inr (.inl ⟨x, rfl⟩)) (fun x => .inr (.inr ⟨x, rfl⟩))
+  refine sequence_pure (HistU [docA, docB])
+    (versioned_history [docA, docB] (by decide) ?_) (HistU.svc _) (HistU.node _) (HistU.tp _)
     [] aliasOps ?_ Store.empty (fun d hd => by cases hd) Caches.empty (CacheInv.empty _)
-  · intro d hd n
+  · intro d hd k n hk
     simp only [List.mem_cons, List.not_mem_nil, or_false] at hd
-    rcases hd with rfl | rfl <;> simp [docA, docB]
+    rcases hd with rfl | rfl <;> simp [docA, docB] <;> omega
   · intro d hd
     simp only [aliasOps, List.mem_cons, Op.putDoc.injEq, reduceCtorEq, List.not_mem_nil, or_false] at hd
     left
@@ -801,12 +1015,12 @@ example : (runRpc rcfg Store.empty 0 [(0, Store.empty)] RpcState.empty rpcOps).m
 /-- the hypotheses of `rpc_sequence_pure` are met by this history -/
 example : ∀ r ∈ runRpc rcfg Store.empty 0 [(0, Store.empty)] RpcState.empty rpcOps,
     Admissible rcfg r.trace r.now r.secret r.res := by
-  refine rpc_sequence_pure (fun d => d ∈ [docA, docB] ∨ (∃ x, d = svcDoc x) ∨ (∃ x, d = nodeDoc x))
-    (versioned_history [docA, docB] (by decide) ?_) (fun x => .inr (.inl ⟨x, rfl⟩)) (fun x => .inr (.inr ⟨x, rfl⟩))
+  refine rpc_sequence_pure (HistU [docA, docB])
+    (versioned_history [docA, docB] (by decide) ?_) (HistU.svc _) (HistU.node _) (HistU.tp _)
     rcfg rfl rpcOps ?_ Store.empty 0 _ RpcState.empty (RpcInv.init _) (List.mem_singleton.mpr rfl)
-  · intro d hd n
+  · intro d hd k n hk
     simp only [List.mem_cons, List.not_mem_nil, or_false] at hd
-    rcases hd with rfl | rfl <;> simp [docA, docB]
+    rcases hd with rfl | rfl <;> simp [docA, docB] <;> omega
   · intro d hd
     simp only [rpcOps, List.mem_cons, ROp.putDoc.injEq, reduceCtorEq, List.not_mem_nil, or_false] at hd
     left; rw [hd]; simp
@@ -855,7 +1069,7 @@ theorem resolve_rpc_pure_outage_counterexample :
     simp only [oTrace, List.mem_cons, List.not_mem_nil, or_false] at hp
     rcases hp with rfl | rfl <;> (rw [hv]; decide)
   have hp : policiesForV roleV docV [] tokB = [docD] := by
-    simp [policiesForV, tokB, dedupeSorted, insertSorted, hd, filterByScope, docD, dedupSvcs, dedupNodes]
+    simp [policiesForV, tokB, Token.noLinks, dedupeSorted, insertSorted, hd, filterByScope, docD, synthDocs, dedupSvcs, dedupNodes, dedupTps, dedupTpsAux]
   have hr : (RpcResult.ofExcept (resolveFreshV tokV roleV docV oCfg.dc [98])).decide oCfg (.serviceRead web false) =
       some .deny := by
     have e : resolveFreshV tokV roleV docV oCfg.dc [98] =
